@@ -1,4 +1,5 @@
 import CoapVerif.Lemmas.Uri
+import CoapVerif.Lemmas.UriSplit
 /-
 C16 — URI text and CoAP options convert both ways without loss, confusion or overread.
 
@@ -199,5 +200,42 @@ theorem split_uri_eq_spec_partial :
     agree false [99, 111, 97, 112, 58, 47, 47, 104, 58, 49, 50, 120] ∧
     agree true [104, 116, 116, 112, 58, 47, 47, 104, 58, 56, 48, 56, 48, 47, 112, 63, 113] ∧
     agree true [47, 97] := by decide
+
+/-! ### coap_split_uri at full strength -/
+
+/-- (P1, coap_split_uri / coap_split_proxy_uri) on **every** byte string whose authority is not libcoap's Unix-socket
+notation "%2F…" (D16f), the transcription of coap_split_uri_sub and the RFC 3986 §3 / RFC 7252 §6 structure S agree:
+the same strings are accepted (scheme from the table (T1) allowed for this entry point, "://", non-empty host or
+bracketed IPv6 literal, decimal port ≤ 65535 — the early exit of the port loop never changes the verdict —, path
+and query delimiters, every '%' in path and query followed by two hex digits) and scheme, host, port (explicit or
+the scheme's default), path and query are the same.  The model never reads outside the input (`oob`). -/
+theorem split_uri_eq_spec (proxy : Bool) (s : Bytes) (hu : unixAuthority s = false) :
+    agree proxy s ∧
+    MU.splitUriSub proxy s =
+      (match Spec.Uri.splitUri Generated.Uri.schemes proxy s with
+       | some parts => R.ok (uriOf parts)
+       | none => R.rej) := by
+  have h := splitUriSub_eq proxy s hu
+  refine ⟨?_, h⟩
+  unfold agree
+  rw [h]
+  cases Spec.Uri.splitUri Generated.Uri.schemes proxy s with
+  | none => rfl
+  | some parts => rfl
+
+/-- malformed URIs are rejected: coap_split_uri returns an error exactly when S does not accept the string -/
+theorem split_uri_rejects_malformed (proxy : Bool) (s : Bytes) (hu : unixAuthority s = false) :
+    MU.splitUriSub proxy s = R.rej ↔ Spec.Uri.splitUri Generated.Uri.schemes proxy s = none := by
+  rw [(split_uri_eq_spec proxy s hu).2]
+  cases Spec.Uri.splitUri Generated.Uri.schemes proxy s <;> simp
+
+-- the hypothesis is satisfiable by accepted and by rejected strings: "coaps://[::1]:77/a/b?c&d", "coap://h/%zz"
+example : unixAuthority [99, 111, 97, 112, 115, 58, 47, 47, 91, 58, 58, 49, 93, 58, 55, 55, 47, 97, 47, 98, 63, 99, 38, 100] = false ∧
+    MU.splitUriSub false [99, 111, 97, 112, 115, 58, 47, 47, 91, 58, 58, 49, 93, 58, 55, 55, 47, 97, 47, 98, 63, 99, 38, 100] =
+      R.ok ⟨1, [58, 58, 49], 77, [97, 47, 98], [99, 38, 100]⟩ := by decide
+example : unixAuthority [99, 111, 97, 112, 58, 47, 47, 104, 47, 37, 122, 122] = false ∧
+    Spec.Uri.splitUri Generated.Uri.schemes false [99, 111, 97, 112, 58, 47, 47, 104, 47, 37, 122, 122] = none := by decide
+-- and it excludes something: "coap://%2Fs" (M: port 0, host "%2Fs"; outside S)
+example : unixAuthority [99, 111, 97, 112, 58, 47, 47, 37, 50, 70, 115] = true := by decide
 
 end Coap.C16
